@@ -52,6 +52,8 @@ def strategy(tier):
       'tmpl': st.one_of(tmpl.map(lambda t: {'L': [t]}), tmpl.map(lambda t: {'D': [['r', t]]})),
       'where': st.sampled_from([None, None, None, 'oneof', 'manyof', 'float']),
       'seeds': st.lists(st.integers(0, 10 ** 6), min_size=1, max_size=3),
+      # hand the template over as a plain dict / list instead of a pg.Dict / pg.List
+      'plain_root': st.sampled_from([False, False, False, True]),
   })
 
 
@@ -315,7 +317,12 @@ def execute(case):
     sig['unselected_inside_selected'] = '1'
     res.label('unselected-inside-selected')
   try:
-    t = pg.template(value, where=where_fn)
+    tvalue = value
+    if case.get('plain_root'):
+      tvalue = dict(value.sym_items()) if isinstance(value, pg.Dict) else list(value.sym_values())
+      res.label('plain-root')
+      sig['plain_root'] = '1'
+    t = pg.template(tvalue, where=where_fn)
     spec = t.dna_spec()
   except Exception as e:   # pylint: disable=broad-except
     return res.violate('pg.template / dna_spec raised %r for %r' % (e, value), law='template-raises', exc=type(e).__name__, **sig)
